@@ -731,7 +731,7 @@ fn universe(thorough: bool) -> Vec<Case> {
         }
     }
     // family maxpdu: maxima x strict x one send action per side
-    let good: Vec<u32> = if thorough { vec![1018, 1019, 4096, 16_378, MAXIMUM_PDU_SIZE] } else { vec![1018, 1019, 16_378, MAXIMUM_PDU_SIZE] };
+    let good: Vec<u32> = vec![1018, 1019, 4096, 16_378, MAXIMUM_PDU_SIZE];
     let mut pairs: Vec<(u32, u32)> = vec![];
     for &a in &good {
         for &b in &good {
@@ -767,7 +767,7 @@ fn universe(thorough: bool) -> Vec<Case> {
             }
         }
     }
-    let stricts: Vec<(bool, bool)> = if thorough { vec![(true, true), (true, false), (false, true), (false, false)] } else { vec![(true, true), (false, false)] };
+    let stricts: Vec<(bool, bool)> = vec![(true, true), (true, false), (false, true), (false, false)];
     let pname = |p: &Vec<Post>| {
         if p.is_empty() {
             "none".to_string()
@@ -972,15 +972,16 @@ fn tcp_cases() -> Vec<Case> {
 }
 
 fn main() {
+    tune_allocator();
     let check = Check::from_args("C29", Level::ModelChecking);
     check.set_rule(
         "Cases: family nego = requestor proposals (1-2 contexts, thorough also 3, over 2 abstract syntaxes x 7 transfer-syntax \
-         lists) x 24 acceptor settings; family maxpdu = pairs of maximum PDU lengths {1018, 1019, [4096,] 16378, largest; and \
+         lists) x 24 acceptor settings; family maxpdu = pairs of maximum PDU lengths {1018, 1019, 4096, 16378, largest; and \
          0 / 100 / 2^32-1 on one side} x strict modes x one send action per side (P-DATA with length field peer maximum -1/+0/+1/+7, \
          send_pdata of 0 / 1 / 2*maximum+3 bytes; thorough also two actions on one side), then each side receives what the wire \
          shows was sent; family items = role selection / extended negotiation on/off x acceptor policy echo/none; family \
          idrule = 127..130 proposed contexts. Every case runs with the sync pair and the async pair under every schedule with \
-         <= 1 deviation (other peer first, read segmentation {1 byte, to PDU boundary, one past, half}, Pending at an async \
+         <= 1 (quick) / 2 (thorough) deviations (other peer first, read segmentation {1 byte, to PDU boundary, one past, half}, Pending at an async \
          write/shutdown). One execution = one evaluation; non-trivial when both sides returned; distinct by (case, api, \
          observations). Family tcp-twin = 20 fixed cases through the real establish()/establish_async() over loopback TCP \
          behind a PDU-wise relay, compared with the in-memory twin (negotiated state and bytes). `transitions` = scheduler \
@@ -991,7 +992,7 @@ fn main() {
     check.assume("a side configured with a maximum its own PDU reader refuses (0, < 1018) may fail locally: then only 'no panic, no hang' is claimed");
     check.assume("'largest supported' for a maximum of 0 is the crate's documented MAXIMUM_PDU_SIZE");
     let cases = universe(check.thorough());
-    let bound = 1;
+    let bound = check.pick(1, 2);
     check.extra("deviation_bound", json!(bound));
     let mut fam_sizes = std::collections::BTreeMap::new();
     for c in &cases {
